@@ -856,7 +856,8 @@ func (w *c11Worker) runSeq(pl *c11Plug, c *c11Case, v c11Variant, count bool) (m
 			// the transport failed before the end of the body: the request must not be acknowledged
 			if count {
 				w.st.ErrRequests++
-				if !v.gz && !c11Equal(calls, c11Lines(r.MCalls, v.scale, v.alpha)) {
+				// (only where the real reads are the prescribed ones: with blown-up symbols the 16 KiB buffer splits them)
+				if !v.gz && v.scale <= 1 && !c11Equal(calls, c11Lines(r.MCalls, v.scale, v.alpha)) {
 					w.st.ModelDrift++
 				}
 			}
@@ -1396,14 +1397,19 @@ func TestVerifC11(t *testing.T) {
 	total := c11Stats{}
 	var mms []*c11Mismatch
 	nmm := 0
+	byClass := map[string]int{}
 	for _, w := range workers {
 		for _, pl := range w.plugs {
 			pl.p.Stop()
 		}
 		total.add(&w.st)
 		nmm += len(w.mms)
+		kept := map[string]int{}
 		for _, m := range w.mms {
-			if len(mms) < 60 {
+			cls := m.Kind + " / " + m.Fam + " / " + m.Variant + " / end=" + m.End
+			byClass[cls]++
+			kept[cls]++
+			if len(mms) < 60 && kept[cls] <= 3 { // a few of every class rather than 60 of the first one
 				mms = append(mms, m)
 			}
 		}
@@ -1415,7 +1421,6 @@ func TestVerifC11(t *testing.T) {
 	for i := range shared {
 		shared[i] = c11NewPlug(i)
 	}
-	byClass := map[string]int{}
 	keep := func(cm []*c11Mismatch) {
 		nmm += len(cm)
 		for _, m := range cm {
